@@ -37,6 +37,7 @@ fn usage() -> ! {
 }
 
 fn main() {
+    common::init_embedded();
     emu::install_panic_hook();
     let args: Vec<String> = std::env::args().collect();
     if args.len() < 2 {
